@@ -535,7 +535,7 @@ def check_shared_writes(ctx, w: World, om: OriginModel) -> None:
             ctx.bad("C17.1", f"counter {sw.obj}.{attr} carries history into results", where, "; ".join(problems))
         else:
             ctx.ok("C17.1", f"counter {sw.obj}.{attr} never flows into a result", where, "uses: increment, initialisation, comparison guarding a print()")
-    ctx.floor("shared containers written from API-reachable code (caches, admitted or not)", len(caches) + len({b.name for b in bad}), 3)
+    ctx.floor("shared containers written from API-reachable code (caches, admitted or not)", len(caches) + len({b.name for b in bad}), 3, soft=True)
 
 
 
